@@ -24,6 +24,9 @@ __all__ = [
 ]
 
 
+MAX_VALUES_PER_CONCRETISATION = 6_000
+
+
 class PathAbort(BaseException):
     """infeasible or deliberately pruned path (never caught by `except Exception`)"""
 
@@ -104,7 +107,11 @@ class Ctx:
         e = z3.simplify(e)
         if z3.is_int_value(e):
             return e.as_long()
+        rejected = 0
         while True:
+            rejected += 1
+            if rejected > MAX_VALUES_PER_CONCRETISATION:
+                raise Inconclusive(f"concretisation of {e} enumerated more than {MAX_VALUES_PER_CONCRETISATION} values (unbounded term?)")
             i = len(self.trace)
             if i < len(self.schedule):
                 d = self.schedule[i]
